@@ -38,7 +38,7 @@ type engine struct {
 
 func (e *engine) Rule() string {
 	return "C05: (seq) interleaved begin/get/set/del/scan/commit/discard of single-use transactions over 4 keys on a fresh DB, long-lived readers re-reading and re-scanning after other commits; " +
-		"(sched) 2-3 Commit calls (each writing 2 keys with one value) and 1-2 NewTransaction calls as goroutines stepped through wm.begin.mid / wm.advance.loop in random order, reads of the open transactions between steps and again at the end; " +
+		"either may continue on a reopened (Close+Open) non-empty database; (sched) 2-3 Commit calls (each writing 2 keys with one value) and 1-2 NewTransaction calls as goroutines stepped through wm.begin.mid / wm.advance.loop in random order, reads of the open transactions between steps and again at the end; " +
 		"(stress) free-running committers and readers with the equal-values oracle; " +
 		"non-trivial = a transaction read a key (get or scan) both before and after another transaction's successful commit of that key returned, or read while a scheduled Commit was parked inside its call, or a stress run"
 }
@@ -90,6 +90,9 @@ func genSeq(r *hlib.Rand) []string {
 	}
 	n := 20 + r.Intn(50)
 	for i := 0; i < n; i++ {
+		if len(open) == 0 && i > 5 && r.Chance(25) {
+			ops = append(ops, "reopen")
+		}
 		if len(open) == 0 || (len(open) < 5 && r.Chance(18)) {
 			reader := r.Chance(35)
 			begin(!reader || r.Chance(30), reader)
@@ -177,6 +180,11 @@ func genSched(r *hlib.Rand) []string {
 		}
 		ops = append(ops, fmt.Sprintf("commit %d", next))
 		next++
+	}
+	// half of the cases with a non-empty prologue continue on a REOPENED database: the oracle is
+	// then seeded by initCommitState and the first commit of the session is the interesting one
+	if next > 1 && r.Chance(50) {
+		ops = append(ops, "reopen", "state")
 	}
 	// an older reader that stays open across everything
 	old := 0
@@ -535,6 +543,23 @@ func (e *engine) Exec(ops []string) (out []string) {
 			return "ok"
 		case f[0] == "state" && len(f) == 1:
 			return stateStr(db)
+		case f[0] == "reopen" && len(f) == 1:
+			// Close + Open of the same directory; refused while a transaction is still open
+			for _, h := range hs {
+				if !h.closed {
+					return "unsafe"
+				}
+			}
+			if sched.live() {
+				return "unsafe"
+			}
+			if err := db.Close(); err != nil {
+				return "other:" + strings.ReplaceAll(err.Error(), " ", "_")
+			}
+			db = openDB(dir)
+			hs = map[int]*handle{}
+			sched.reset()
+			return "ok"
 		case f[0] == "drain" && len(f) == 1:
 			// four rounds over the scheduled calls in spawn order, each run until it returns or blocks
 			res := []string{"drained"}
